@@ -36,6 +36,13 @@ TAILS = [
 ]
 
 
+PRELUDES = {
+    "COMMA": "~V\nVERS. 2.0:\nWRAP. NO:\nDLM . COMMA:\n~W\nNULL. -999.25:\n~C\nDEPT.M:\nA.:\n~A\n1.0,2.0\n2.0,3.0\n",
+    "TAB": "~V\nVERS. 2.0:\nWRAP. NO:\nDLM . TAB:\n~W\nNULL. -999.25:\n~C\nDEPT.M:\nA.:\n~A\n1.0\t2.0\n2.0\t3.0\n",
+    "WRAP": "~V\nVERS. 2.0:\nWRAP. YES:\n~W\nNULL. -5:\n~C\nDEPT.M:\nA.:\nB.:\n~A\n1.0\n2.0 3.0\n2.0\n3.0 4.0\n",
+}
+
+
 def gen_cell(g, j, i):
     r = g.random()
     if j == 0:
@@ -148,13 +155,22 @@ class C02(Prop):
         delta = g.choice([-2, -1, 1, 2, 3]) if g.random() < 0.15 else 0
         return {"declared_delta": delta, "null": null, "case": g.choice(["upper", "upper", "lower", "preserve"]), "nkw": neutral_read_kw(g, exclude=("null_policy", "dtypes")), "ncols": nc, "rows": rows, "noise": noise, "title": g.choice(TITLES), "tail": tail, "pre": pre,
                 "final_newline": g.random() < 0.6, "vers": g.choice([1.2, 2.0]), "dlm": dlm, "channel": cfg,
-                "policy": Policy.draw(st.io).to_json(), "force_fallback": st.fault.random() < 0.3}
+                "policy": Policy.draw(st.io).to_json(), "force_fallback": st.fault.random() < 0.3,
+                # the LASFile object that reads the document has read another one before (declaring a delimiter or wrapping)
+                "prelude": g.choice(["COMMA", "TAB", "WRAP"]) if g.random() < 0.08 else None}
 
     def read(self, sc, text, engine, force=False):
         fs = SimFS(policy=Policy.from_json(sc["policy"]))
         with fs, EngineTrace(force_numpy_fail=force) as tr:
             try:
-                las = read_via(fs, text, sc["channel"], fix_kw(dict(sc.get("nkw") or {}, engine=engine, mnemonic_case=sc.get("case", "upper"))), tag="c02")
+                into = None
+                if sc.get("prelude"):
+                    import io
+                    import lasio
+                    into = lasio.LASFile()
+                    into.read(io.StringIO(PRELUDES[sc["prelude"]]), engine=engine)
+                las = read_via(fs, text, sc["channel"], fix_kw(dict(sc.get("nkw") or {}, engine=engine, mnemonic_case=sc.get("case", "upper"))), tag="c02",
+                               into=into)
                 return las, None, tr, fs
             except Exception as e:
                 return None, e, tr, fs
